@@ -2,6 +2,7 @@
 # usage: tools/thorough.sh "<props>"  - runs the thorough tier (against $VP_RUN_REPO when set), one line per property
 cd "$(dirname "$0")/.."
 [ -n "${VP_RUN_REPO:-}" ] && export KAWIN_SRC="$VP_RUN_REPO"
+[ -d .deps ] || sh ./setup.sh >/dev/null 2>&1
 for p in $1; do
   out=$(./check $p thorough 2>&1); rc=$?
   echo "$p rc=$rc $(echo "$out" | tail -1 | cut -c1-160)"
